@@ -50,6 +50,16 @@ func (u *Unit) mapHeaps(s *State, mt types.Type) (mkey, lkey string, m, l *Term)
 				s.Entry.Heaps[key] = h
 			}
 		}
+		if s.DirtyAll {
+			if u.mapTypes == nil {
+				u.mapTypes = map[string]types.Type{}
+			}
+			u.mapTypes[mkey] = mt
+			h0 := h
+			h = u.havocHeap(s, key, h0)
+			u.assumeDirtyFrame(s, key, h, h0)
+			s.Heaps[key] = h
+		}
 		return h
 	}
 	if u.mapTypes == nil {
